@@ -64,11 +64,17 @@ package version
 //@   ensures[closed_afterwards] s.closed.val
 //@ end
 //@ # a version leaves the active set only when nothing references it and it is not the current one
+//@ func Version.NumOfRef
+//@   norefine
+//@   modifies nothing
+//@   ensures typeis(self, "*version") ==> result == cast(self, "*version").ref.val
+//@ end
 //@ func familyVersion.removeVersion
 //@   prop C02
 //@   requires fv.activeVersions != nil && v != nil
 //@   modifies fv.activeVersions[*]
-//@   ensures[the_current_version_is_never_removed] v == fv.current ==> fv.activeVersions == old(fv.activeVersions)
+//@   ensures[the_current_version_is_never_removed] v == fv.current ==> all(k, "int64", has(fv.activeVersions, k) == old(has(fv.activeVersions, k)) && fv.activeVersions[k] == old(fv.activeVersions[k]))
+//@   ensures[a_version_that_a_snapshot_pins_stays_registered] (typeis(v, "*version") && old(cast(v, "*version").ref.val) != 0) ==> all(k, "int64", has(fv.activeVersions, k) == old(has(fv.activeVersions, k)) && fv.activeVersions[k] == old(fv.activeVersions[k]))
 //@   ensures[lock_released] !locked(fv.mutex)
 //@ end
 //@ func Version.ID
